@@ -1,2 +1,305 @@
+"""Rules on the value classes of the runtime (C14, parts shared with C16/C05):
+ParsedObject.__eq__/__hash__/_asdict/_replace, _hash, _Metadata, Infix/Prefix/Postfix."""
+import ast
+
+from .common import AnalysisError
+from . import load
+from . import paths as P
+
+SELF, OTHER = ('PARAM', 'self'), ('PARAM', 'other')
+FIELDS = ('ATTR', SELF, '_fields')
+ITEM = ('ITEM', FIELDS)
+
+
+def get_class(tree, name, what):
+    cs = load.classes_of(tree)
+    if name not in cs:
+        raise AnalysisError(f'{what}: anchor class {name} vanished')
+    return cs[name]
+
+
+def method(cls, name):
+    for n in cls.body:
+        if isinstance(n, ast.FunctionDef) and n.name == name:
+            return n
+    return None
+
+
+def all_steps(p):
+    out = []
+    for s in p.steps:
+        out.append(s)
+        if s[0] == 'LOOP':
+            for bp in s[2]:
+                out += all_steps(bp)
+    return out
+
+
+def check_eq_hash(tree, what, bad):
+    po = get_class(tree, 'ParsedObject', what)
+    eq, hs = method(po, '__eq__'), method(po, '__hash__')
+    if eq is None or hs is None:
+        bad('C14-eq-hash', f'{what}: ParsedObject lacks __eq__ or __hash__ (equal objects would hash by identity)')
+        return 0
+    n = 0
+    for fn in (eq, hs):
+        for node in ast.walk(fn):
+            if isinstance(node, ast.Attribute) and node.attr in ('_metadata',):
+                bad('C14-eq-hash', f'{what}: {fn.name} reads {node.attr}: position metadata must not influence '
+                                   f'equality or hashing')
+            if isinstance(node, ast.Call) and isinstance(node.func, ast.Name) and node.func.id == 'id':
+                bad('C14-eq-hash', f'{what}: {fn.name} uses id(): identity must not influence equality or hashing')
+    # ---- __eq__
+    E = P.Enumerator()
+    paths = E.function(eq)
+    n += len(paths)
+    cls_tests = [('CALL', ('VAR', 'isinstance'), OTHER, ('ATTR', SELF, '__class__')),
+                 ('CMP', ('Is',), ('CALL', ('VAR', 'type'), OTHER), ('CALL', ('VAR', 'type'), SELF)),
+                 ('CMP', ('Is',), ('CALL', ('VAR', 'type'), SELF), ('CALL', ('VAR', 'type'), OTHER)),
+                 ('CMP', ('Is',), ('ATTR', OTHER, '__class__'), ('ATTR', SELF, '__class__')),
+                 ('CMP', ('Is',), ('ATTR', SELF, '__class__'), ('ATTR', OTHER, '__class__'))]
+    L, R = ('CALL', ('VAR', 'getattr'), SELF, ITEM), ('CALL', ('VAR', 'getattr'), OTHER, ITEM)
+    saw_loop = False
+    for p in paths:
+        if p.end[0] != 'return':
+            bad('C14-eq-hash', f'{what}: __eq__ has a path that does not return a value')
+            continue
+        ret = p.end[1]
+        tests = p.tests()
+        same = any(t[2] and t[1] in (('CMP', ('Is',), SELF, OTHER), ('CMP', ('Is',), OTHER, SELF)) for t in tests)
+        cls_ok = any(t[2] and t[1] in cls_tests for t in tests)
+        cls_no = any((not t[2]) and t[1] in cls_tests for t in tests)
+        loops = [s for s in p.steps if s[0] == 'LOOP']
+        if ret == ('CONST', 'True') and not same:
+            if not cls_ok:
+                bad('C14-eq-hash', f'{what}: __eq__ can return True without having tested that both objects '
+                                   f'have the same class')
+            if not loops:
+                bad('C14-eq-hash', f'{what}: __eq__ can return True without comparing the fields')
+        if ret == ('CONST', 'False') and not cls_no:
+            # must come from a field comparison
+            ne = [t for t in tests if t[2] and t[1] in (('CMP', ('NotEq',), L, R), ('CMP', ('NotEq',), R, L))] + \
+                 [t for t in tests if (not t[2]) and t[1] in (('CMP', ('Eq',), L, R), ('CMP', ('Eq',), R, L))]
+            if not ne:
+                bad('C14-eq-hash', f'{what}: __eq__ returns False on a path that is neither the class test nor '
+                                   f'a field comparison ({p.describe()[:200]})')
+        for lp in loops:
+            saw_loop = True
+            it = E.val(lp[1].iter, {'self': SELF, 'other': OTHER}) if isinstance(lp[1], ast.For) else None
+            if it != FIELDS:
+                bad('C14-eq-hash', f'{what}: __eq__ iterates {P.tfmt(it)}, expected self._fields')
+            if not cls_ok:
+                bad('C14-eq-hash', f'{what}: __eq__ compares fields before the class test')
+    if not saw_loop:
+        bad('C14-eq-hash', f'{what}: __eq__ never compares the fields')
+    # ---- __hash__
+    E = P.Enumerator()
+    paths = E.function(hs)
+    n += len(paths)
+    loops = [s for p in paths for s in p.steps if s[0] == 'LOOP']
+    if not loops:
+        bad('C14-eq-hash', f'{what}: __hash__ does not iterate the fields')
+    for lp in loops:
+        it = E.val(lp[1].iter, {'self': SELF}) if isinstance(lp[1], ast.For) else None
+        if it != FIELDS:
+            bad('C14-eq-hash', f'{what}: __hash__ iterates {P.tfmt(it)}; __eq__ iterates self._fields '
+                               f'(equal objects must hash alike)')
+        used = False
+        for bp in lp[2]:
+            for e in bp.events('assign'):
+                for sub in P.subterms(e[3]):
+                    if sub == ('CALL', ('VAR', '_hash'), ('CALL', ('VAR', 'getattr'), SELF, ITEM)):
+                        used = True
+                    if sub == ('CALL', ('VAR', 'hash'), ('CALL', ('VAR', 'getattr'), SELF, ITEM)):
+                        bad('C14-eq-hash', f'{what}: __hash__ uses the builtin hash() on field values: fields '
+                                           f'holding lists or dicts make equal objects unhashable')
+                        used = True
+        if not used:
+            bad('C14-eq-hash', f'{what}: __hash__ does not combine _hash(getattr(self, field))')
+    # ---- _hash helper
+    fns = load.functions_of(tree)
+    if '_hash' not in fns:
+        bad('C14-eq-hash', f'{what}: helper _hash vanished')
+    else:
+        E = P.Enumerator()
+        hp = E.function(fns['_hash'])
+        n += len(hp)
+        V = ('PARAM', fns['_hash'].args.args[0].arg)
+        kinds = set()
+        for p in hp:
+            exc = [t for t in p.tests() if isinstance(t[1], tuple) and t[1][:1] == ('EXCEPT',)]
+            if not exc:
+                if p.end[0] == 'return' and p.end[1] == ('CALL', ('VAR', 'hash'), V):
+                    kinds.add('plain')
+                continue
+            if exc[0][1] != ('EXCEPT', ('VAR', 'TypeError')):
+                bad('C14-eq-hash', f'{what}: _hash handles {P.tfmt(exc[0][1])}, expected TypeError')
+            for t in p.tests():
+                it = None
+                if t[2] and isinstance(t[1], tuple) and t[1][:2] == ('CALL', ('VAR', 'isinstance')) and t[1][2] == V:
+                    names = {x[1] for x in P.subterms(t[1][3]) if isinstance(x, tuple) and x[:1] == ('VAR',)}
+                    loops = [s for s in p.steps if s[0] == 'LOOP']
+                    rec = any(sub[:2] == ('CALL', ('VAR', '_hash')) for lp in loops for bp in lp[2]
+                              for e in bp.events('assign') for sub in P.subterms(e[3]) if isinstance(sub, tuple))
+                    if rec:
+                        kinds |= names
+        for need in ('plain', 'list', 'tuple', 'dict'):
+            if need not in kinds:
+                bad('C14-eq-hash', f'{what}: _hash has no {"hash(value) fast path" if need == "plain" else need + " fallback recursing into the elements"}')
+    return n
+
+
+def check_asdict(tree, what, bad):
+    po = get_class(tree, 'ParsedObject', what)
+    fn = method(po, '_asdict')
+    if fn is None:
+        bad('C14-asdict', f'{what}: _asdict vanished')
+        return
+    ps = P.Enumerator().function(fn)
+    ok = len(ps) == 1 and ps[0].end[0] == 'return'
+    if ok:
+        r = ps[0].end[1]
+        ok = (isinstance(r, tuple) and r[:1] == ('DICTCOMP',) and len(r) == 4 and r[3][2] == FIELDS
+              and r[1] == ('ITEM', r[3][1]) and r[2] == ('CALL', ('VAR', 'getattr'), SELF, ('ITEM', r[3][1])))
+    if not ok:
+        bad('C14-asdict', f'{what}: _asdict is not {{f: getattr(self, f) for f in self._fields}} '
+                          f'(fields in declaration order)')
+
+
 def check_replace(tree, what, bad):
-    pass
+    po = get_class(tree, 'ParsedObject', what)
+    fn = method(po, '_replace')
+    if fn is None:
+        bad('C16-replace', f'{what}: ParsedObject._replace vanished')
+        return
+    kwname = fn.args.kwarg.arg if fn.args.kwarg else None
+    if kwname is None:
+        raise AnalysisError(f'{what}: _replace signature changed')
+    KW = ('PARAM', kwname)
+    ps = P.Enumerator().function(fn)
+    for p in ps:
+        steps = all_steps(p)
+        for s in steps:
+            if s[0] == 'E' and s[1] == 'attrstore' and s[2][1] == SELF:
+                bad('C16-replace', f'{what}: _replace stores into the original object (self.{s[2][2]})')
+            if s[0] == 'E' and s[1].startswith('call:') and P.contains(s[2], lambda x: x == SELF) \
+                    and not P.contains(s[2], lambda x: isinstance(x, tuple) and x[:1] == ('CALL',)):
+                bad('C16-replace', f'{what}: _replace mutates the original object ({P.tfmt(s[2])}.{s[1][5:]})')
+        if p.end[0] == 'raise':
+            continue
+        if p.end[0] != 'return':
+            bad('C16-replace', f'{what}: _replace has a path without return')
+            continue
+        new = ('CALL', ('ATTR', SELF, '__class__'), ('KW', None, KW))
+        alt = ('CALL', ('CALL', ('VAR', 'type'), SELF), ('KW', None, KW))
+        if p.end[1] not in (new, alt):
+            bad('C16-replace', f'{what}: _replace returns {P.tfmt(p.end[1])}; the copy must be built through '
+                               f'the class, self.__class__(**kw), so that it starts with fresh caches '
+                               f'(a cloned __dict__ carries the cached hash of the original)')
+            continue
+        res = p.end[1]
+        md = [s for s in steps if s[0] == 'E' and s[1] == 'call:update'
+              and s[2] == ('ATTR', res, '_metadata') and s[3] == (('ATTR', SELF, '_metadata'),)]
+        if not md:
+            bad('C16-replace', f'{what}: _replace does not copy the position metadata onto the new object')
+        fills = [s for s in steps if s[0] == 'E' and s[1] == 'substore' and s[2] == ('SUB', KW, ITEM)
+                 and s[3] == ('CALL', ('VAR', 'getattr'), SELF, ITEM)]
+        if not fills:
+            bad('C16-replace', f'{what}: _replace does not take the fields that were not given from the original')
+
+
+def check_getattr_safety(tree, what, bad):
+    """A class defining __getattr__ must not read, inside it, through `self.`, an instance attribute
+    that only __init__ creates: copy/pickle create the instance without __init__ and probe it with
+    getattr (unbounded recursion)."""
+    n = 0
+    for cls in load.classes_of(tree).values():
+        ga = method(cls, '__getattr__')
+        if ga is None:
+            continue
+        n += 1
+        selfname = ga.args.args[0].arg
+        class_level = {t.id for st in cls.body if isinstance(st, ast.Assign) for t in st.targets
+                       if isinstance(t, ast.Name)} | {st.name for st in cls.body if isinstance(st, ast.FunctionDef)}
+        for node in ast.walk(ga):
+            if isinstance(node, ast.Attribute) and isinstance(node.value, ast.Name) and node.value.id == selfname \
+                    and isinstance(node.ctx, ast.Load) and node.attr not in class_level \
+                    and not (node.attr.startswith('__') and node.attr.endswith('__')):
+                bad('C14-copy-safe', f'{what}: {cls.name}.__getattr__ reads self.{node.attr}, an attribute that only '
+                                     f'__init__ creates: copy.deepcopy / pickle build the instance without '
+                                     f'__init__ and probe it with getattr -> RecursionError')
+    return n
+
+
+def check_node_classes(tree, what, bad):
+    """Infix / Prefix / Postfix: _fields, __init__ parameters, attribute stores and __repr__ agree."""
+    n = 0
+    for name in ('Infix', 'Prefix', 'Postfix'):
+        cls = get_class(tree, name, what)
+        n += 1
+        fields = None
+        for st in cls.body:
+            if isinstance(st, ast.Assign) and any(isinstance(t, ast.Name) and t.id == '_fields' for t in st.targets):
+                try:
+                    fields = list(ast.literal_eval(st.value))
+                except Exception:
+                    raise AnalysisError(f'{what}: {name}._fields is not a literal')
+        init, rp = method(cls, '__init__'), method(cls, '__repr__')
+        if fields is None or init is None or rp is None:
+            raise AnalysisError(f'{what}: {name} lacks _fields/__init__/__repr__')
+        params = [a.arg for a in init.args.args][1:]
+        if params != fields:
+            bad('C14-field-tables', f'{what}: {name}.__init__ takes {params} but _fields is {fields}: '
+                                    f'_replace(**kw) and repr address different names')
+        stores = {}
+        base_init = False
+        for node in ast.walk(init):
+            if isinstance(node, ast.Assign) and isinstance(node.targets[0], ast.Attribute) \
+                    and isinstance(node.targets[0].value, ast.Name) and node.targets[0].value.id == 'self':
+                stores[node.targets[0].attr] = ast.unparse(node.value)
+            if isinstance(node, ast.Call) and ast.unparse(node.func) in ('ParsedObject.__init__', 'super().__init__'):
+                base_init = True
+        for f in fields:
+            if stores.get(f) != f:
+                bad('C14-field-tables', f'{what}: {name}.__init__ stores {stores.get(f)!r} in self.{f}')
+        if not base_init:
+            bad('C14-field-tables', f'{what}: {name}.__init__ does not initialise ParsedObject (metadata, hash cache)')
+        # repr: name followed by the fields in order, each with !r
+        rets = [x for x in ast.walk(rp) if isinstance(x, ast.Return)]
+        ok = False
+        if len(rets) == 1 and isinstance(rets[0].value, ast.JoinedStr):
+            vals = rets[0].value.values
+            attrs = [ast.unparse(v.value) for v in vals if isinstance(v, ast.FormattedValue)]
+            convs = [v.conversion for v in vals if isinstance(v, ast.FormattedValue)]
+            lit = ''.join(v.value for v in vals if isinstance(v, ast.Constant))
+            ok = attrs == [f'self.{f}' for f in fields] and all(c == ord('r') for c in convs) \
+                and lit.startswith(name + '(') and lit.endswith(')')
+        if not ok:
+            bad('C14-field-tables', f'{what}: {name}.__repr__ does not render {name}(<fields in _fields order, !r>): '
+                                    f'eval(repr(x)) would not rebuild an equal object')
+    return n
+
+
+def check_metadata(tree, what, bad):
+    md = get_class(tree, '_Metadata', what)
+    for m in ('copy', 'update', '__len__', '__setattr__', '__getattr__'):
+        if method(md, m) is None:
+            bad('C14-metadata', f'{what}: _Metadata.{m} vanished')
+    up = method(md, 'update')
+    if up is not None:
+        ps = P.Enumerator().function(up)
+        o = ('PARAM', up.args.args[1].arg)
+        for p in ps:
+            for s in all_steps(p):
+                if s[0] == 'E' and s[1].startswith('call:') and P.contains(s[2], lambda x: x == o):
+                    bad('C14-metadata', f'{what}: _Metadata.update mutates its argument')
+    po = get_class(tree, 'ParsedObject', what)
+    init = method(po, '__init__')
+    fresh = False
+    if init is not None:
+        for node in ast.walk(init):
+            if isinstance(node, ast.Assign) and ast.unparse(node.targets[0]) == 'self._metadata' \
+                    and isinstance(node.value, ast.Call) and ast.unparse(node.value.func) == '_Metadata':
+                fresh = True
+    if not fresh:
+        bad('C14-metadata', f'{what}: ParsedObject.__init__ does not give every object its own _Metadata()')
